@@ -30,15 +30,23 @@ def precond (W : World) (form : Form) (f : Func) (args : List Val) : Prop :=
    | .secHole i, _ => i < args.length
    | .splatTail, _ => args ≠ []
    | .secAll, _ => args ≠ []
+   | .secMix pat, _ => mixSize pat = args.length ∧ pat.any Mix.isHole = true
+   | .listMix pat, _ => mixSize pat = args.length ∧ pat.any Mix.isHole = true
    /- "(a f)(b) agrees with them when a is not itself a function" -/
    | .juxt, a :: _ => a.isFunc = false
    /- "whenever the two-argument call f(a, b) succeeds and f(b) is a function" -/
    | .rsec, [a, b] => (∃ g, app W f [b] = .ok (.func g)) ∧ (∃ v, app W f [a, b] = .ok v)
    | _, _ => True)
 
+/-- what a form denotes: the plain call — except a list section, which denotes the list -/
+def denotes (W : World) (form : Form) (f : Func) (args : List Val) : Out Val :=
+  match form with
+  | .listMix _ => .ok (.list args)
+  | _ => app W f args
+
 /-- The property, for one form: it denotes the plain call. -/
 def FormAgrees (W : World) (form : Form) (f : Func) (args : List Val) : Prop :=
-  precond W form f args → evalForm W form f args = app W f args
+  precond W form f args → evalForm W form f args = denotes W form f args
 
 /-- what the differential harness must compare the real interpreter's answer for a form with:
 the real plain call (`always`), or the real plain call provided the side condition of the right
@@ -47,11 +55,14 @@ inductive Ref where
   | always
   | ifSection
   | ifNotFunc
+  /-- list sections: the list literal `[a, b, …]` -/
+  | listLit
   deriving DecidableEq, Repr
 
 def refOf : Form → Ref
   | .rsec => .ifSection
   | .juxt => .ifNotFunc
+  | .listMix _ => .listLit
   | _ => .always
 
 end Noulith.ApplySpec
